@@ -151,7 +151,8 @@ Proof. rewrite nonempty_false_ordered by apply nonempty_init. reflexivity. Qed.
 
 (* C11 on the machine: a removal, then anything, behaves as a fresh element to which the remaining children were added in their
    insertion order - for EVERY template without optional nested sequence and with distinct leaf names, EVERY history, EVERY child *)
-Theorem C11_machine t ops k c b : no_opt_s (init t) = true -> NoDup (alpha_t t) -> nth_error (ins (mrun t ops)) k = Some (c, b) ->
+(* the children view and the acceptance of every further child: for EVERY template with distinct leaf names (optional nested sequences included) *)
+Theorem C11_machine_all t ops k c b : NoDup (alpha_t t) -> nth_error (ins (mrun t ops)) k = Some (c, b) ->
   let s1 := fst (mstep (mrun t ops) (MRemove k)) in
   let w := map snd (ins s1) in
   exists s2, addw w 0 (init t) = Some s2                          (* every remaining child is accepted again, in insertion order *)
@@ -159,7 +160,7 @@ Theorem C11_machine t ops k c b : no_opt_s (init t) = true -> NoDup (alpha_t t) 
     /\ names (ordered s2) = names (ordered (tree s1))               (* same children in schema order *)
     /\ (forall a n n', option_map erase (add n a s2) = option_map erase (add n' a (tree s1))).   (* same acceptance of every further child *)
 Proof.
-  intros NO ND E s1 w.
+  intros ND E s1 w.
   assert (MI: MInv t s1) by (apply mstep_inv; apply mrun_inv). destruct MI as (I1 & Sh1 & P1).
   assert (HC: forall a, count a w = count a (names (ordered (tree s1)))).
   { intros a. unfold w, names. symmetry. apply Permutation_count. apply Permutation_map. exact P1. }
@@ -176,6 +177,14 @@ Proof.
     + rewrite !names_erase by auto. rewrite EE. reflexivity.
     + intros a n n'. rewrite !add_erase. rewrite EE. reflexivity.
 Qed.
+Theorem C11_machine t ops k c b : no_opt_s (init t) = true -> NoDup (alpha_t t) -> nth_error (ins (mrun t ops)) k = Some (c, b) ->
+  let s1 := fst (mstep (mrun t ops) (MRemove k)) in
+  let w := map snd (ins s1) in
+  exists s2, addw w 0 (init t) = Some s2
+    /\ erase s2 = erase (tree s1)
+    /\ names (ordered s2) = names (ordered (tree s1))
+    /\ (forall a n n', option_map erase (add n a s2) = option_map erase (add n' a (tree s1))).
+Proof. intros _. apply C11_machine_all. Qed.
 (* and the final-check verdict is the same (nothing is optional, so the verdict only depends on the erased state) *)
 Theorem C11_machine_verdict s2 s1 : no_opt_s s2 = true -> no_opt_s s1 = true -> erase s2 = erase s1 -> required true s2 = required true s1.
 Proof. intros N2 N1 E. rewrite !required_erase by auto. rewrite E. reflexivity. Qed.
